@@ -155,6 +155,9 @@ fn candidate_via_api(base: &adapter::Config, mask: usize, version: usize) -> Res
         Outcome::Ok(q) => {
             let mut m = adapter::matrix_of(&q);
             let map = region_map(version);
+            if m.size != map.size {
+                return Err(format!("the forced-mask build has side {}, version {version} has side {}", m.size, map.size));
+            }
             for r in 0..m.size {
                 for c in 0..m.size {
                     if map.at(r, c) == Region::Format {
